@@ -124,6 +124,9 @@ def gen_header(rng, tier, ctx):
                 m = list(b[:8] + struct.pack("<I", val) + b[12:])
                 if m != base:
                     cases.append(m)
+    for hs in list(range(0, 0x100)) + [0x170, 0x1070, 0x700000, 0x70000000, 0x80000070, 0xFFFFFFFF]:   # every small header size, the checksum right
+        if hs != 0x70:
+            cases.append(make_file(rng, rng.choice((0, 8, 16)), header_size=hs))
     for _ in range(1500 if big else 300):                    # wrong fields with a *correct* checksum
         kind = rng.randrange(8)
         over = {}
